@@ -20,11 +20,11 @@ def bitsFor (x : Nat) : Nat := if x = 0 then 0 else Nat.log2 x + 1
 /-- functions.py:66 : `not (mod & (mod - 1))` -/
 def isPow2 (mod : Nat) : Bool := mod &&& (mod - 1) == 0
 
-/-- functions.py:58-68.  `SwitchValue(sig+incr, [(mod+i, i) for i in range(max_incr)] + [(None, sig+incr)])`:
-    the first (only) matching case `mod + i` yields `i`, otherwise `sig + incr` is passed through. -/
+/-- functions.py:58-68.  `SwitchValue(sig+incr, [(mod+i, i % mod) for i in range(max_incr)] + [(None, sig+incr)])`:
+    the first (only) matching case `mod + i` yields `i % mod`, otherwise `sig + incr` is passed through. -/
 def modAdd (sig mod incr maxIncr : Nat) : Nat :=
   if isPow2 mod then (sig + incr) &&& (mod - 1)
-  else if mod ≤ sig + incr ∧ sig + incr < mod + maxIncr then sig + incr - mod
+  else if mod ≤ sig + incr ∧ sig + incr < mod + maxIncr then (sig + incr - mod) % mod
   else sig + incr
 
 structure Cfg where
